@@ -29,12 +29,13 @@ type HReply struct {
 }
 
 type HttpInput struct {
-	Class   string   `json:"class"` // lockstep | pipelined | malformed | oversend
+	Class   string   `json:"class"`  // lockstep | pipelined | malformed | oversend
 	NoPort  bool     `json:"noport"` // director whose host carries no port (port taken from the connection)
 	Msgs    []hx.B   `json:"msgs"`   // the client's messages; the stream is their concatenation
 	Items   []Item   `json:"items"`
 	Replies []HReply `json:"replies"` // backend reply to the k-th request it receives on this connection
 	Group   int      `json:"group"`   // cases of one group run concurrently
+	Marker  string   `json:"marker"`  // value of the X-C15 header in this case's requests (how the backend attributes connections)
 }
 
 type SResp struct {
@@ -186,8 +187,8 @@ func writeFraming(r *hx.Rand, b *bytes.Buffer, chunked bool, n int, m string) {
 }
 
 var statuses = []string{"200 OK", "200 OK", "200 Fine", "201 Created", "204 No Content", "301 Moved Permanently", "304 Not Modified", "404 Not Found", "500 Internal Server Error", "418 I'm a teapot"}
-var rhnames = []string{"Server", "Content-Type", "Set-Cookie", "set-cookie", "X-Powered-By", "Location", "ETag", "Vary", "X-multi"}
-var rhvals = []string{"Apache/2.4.18 (Ubuntu)", "text/html; charset=utf-8", "a=b; Path=/", "c=d; HttpOnly", "PHP/5.6", "/login", "W/\"1\"", "Accept-Encoding", ""}
+var rhnames = []string{"Pragma", "Server", "Content-Type", "Set-Cookie", "set-cookie", "X-Powered-By", "Location", "ETag", "Vary", "X-multi"}
+var rhvals = []string{"no-cache", "Apache/2.4.18 (Ubuntu)", "text/html; charset=utf-8", "a=b; Path=/", "c=d; HttpOnly", "PHP/5.6", "/login", "W/\"1\"", "Accept-Encoding", ""}
 
 func genReply(r *hx.Rand, method string, small bool) HReply {
 	st := statuses[r.Intn(len(statuses))]
@@ -395,6 +396,9 @@ func reqMethods(in HttpInput) []string {
 
 func (e *httpEnv) run(in HttpInput, id string) (HttpObs, string) {
 	var ob HttpObs
+	if in.Marker != "" {
+		id = in.Marker
+	}
 	var reps []httpReply
 	for _, rp := range in.Replies {
 		reps = append(reps, httpReply{Raw: rp.Raw, Cuts: rp.Cuts})
